@@ -73,9 +73,12 @@ class Check(PropertyCheck):
             s1 = self.rng.choice(SCALES)
             s2 = self.rng.choice([s for s in SCALES if s != s1])
             pairs.append((s1, s2))
-            lines.append("%da settings scale=%s,b=1,s=0,d=0 %s" % (i, backend.f32bits(s1), hx(t)))
+            # the other settings are the same for both renderings and, two times out of three, not the defaults: the scale
+            # has to scale every length whatever the font size and the stroke width are
+            other = "" if i % 3 == 0 else ",fs=%d,sw=%s" % (self.rng.choice([7, 9, 12, 20, 30]), backend.f32bits(self.rng.choice([1, 3.5, 6])))
+            lines.append("%da settings scale=%s,b=1,s=0,d=0%s %s" % (i, backend.f32bits(s1), other, hx(t)))
             # every third second rendering comes from a CellBuffer that was rendered at other scales before ("reuse")
-            lines.append("%db %s scale=%s,b=1,s=0,d=0 %s" % (i, "reuse" if i % 3 == 1 else "settings", backend.f32bits(s2), hx(t)))
+            lines.append("%db %s scale=%s,b=1,s=0,d=0%s %s" % (i, "reuse" if i % 3 == 1 else "settings", backend.f32bits(s2), other, hx(t)))
         res = common.run_impl("lib", lines)
         for i, t in enumerate(texts):
             self.evaluations += 1
